@@ -81,9 +81,50 @@ def _impl_pair(inp):
     from soundevent.evaluation import compute_affinity
     g1, g2 = gen_geom.to_data(inp["g1"]), gen_geom.to_data(inp["g2"])
     tb, fb = _f(inp["tb"]), _f(inp["fb"])
-    a12 = compute_affinity(g1, g2, time_buffer=tb, freq_buffer=fb)
+    if inp["g1"] == inp["g2"]:
+        # a self pair: once with one and the same object on both sides (aliasing), once with two equal objects
+        a12 = compute_affinity(g1, g1, time_buffer=tb, freq_buffer=fb)
+    else:
+        a12 = compute_affinity(g1, g2, time_buffer=tb, freq_buffer=fb)
     a21 = compute_affinity(g2, g1, time_buffer=tb, freq_buffer=fb)
-    return {"val": [rat(float(a12)), rat(float(a21))]}
+    # the arguments must come back unchanged (compute_affinity has no business mutating them)
+    out = {"val": [rat(float(a12)), rat(float(a21))]}
+    for g, gj in ((g1, inp["g1"]), (g2, inp["g2"])):
+        if gen_geom.from_data(g) != gen_geom.from_data(gen_geom.to_data(gj)):
+            out["mutated"] = gen_geom.from_data(g)
+    if len(_IMPL_SEEN) < 20000:
+        _IMPL_SEEN[jkey(inp)] = out
+    return out
+
+
+_IMPL_SEEN = {}
+
+
+def _impl_bits(inp):
+    """the outputs `_impl_pair` already observed for this input (no second evaluation), else a fresh one"""
+    k = jkey(inp)
+    if k not in _IMPL_SEEN:
+        return _impl_pair(inp)
+    return _IMPL_SEEN[k]
+
+
+def _to_model64(inp):
+    """every shape measured (boxes of the area branch too): what `affinityR rnd64` needs"""
+    return _measure({**inp, "mode": "free"})["args"]
+
+
+def _compare_bits(inp, io, mo):
+    if "raise" in io or "raise" in mo:
+        a = {k: v for k, v in io.items() if k != "trace"}
+        return None if a == mo else "implementation and model disagree (exception)"
+    if "measure_error" in _measure({**inp, "mode": "free"}):
+        return None
+    for k in (0, 1):
+        if frac(mo["val"][k]) != frac(io["val"][k]):
+            return (f"compute_affinity {'(g1, g2)' if k == 0 else '(g2, g1)'} = {float(frac(io['val'][k]))!r} is not the binary64 "
+                    f"evaluation of the model's operations on the same GEOS values ({float(frac(mo['val'][k]))!r}): the order "
+                    "of floating-point operations changed")
+    return None
 
 
 def _shift_geom(gj, d):
@@ -279,6 +320,8 @@ def _contracts(ctx, inp, info):
 def _holds_pair(ctx, inp, io):
     if "raise" in io:
         return "compute_affinity raised " + str(io["raise"])
+    if "mutated" in io:
+        return "compute_affinity changed one of its arguments in place: " + jkey(io["mutated"])[:200]
     info = _measure(inp)
     if info["branch"] == "error":
         return None
@@ -355,6 +398,11 @@ OPS = {
                           nontrivial=_nontrivial, mode="round-once", model_op="affinity_pair"),
     "affinity_geos": Op("affinity_geos", _impl_pair, to_model=_to_model, compare=_compare_pair, holds=_holds_pair,
                         nontrivial=_nontrivial, mode="tolerance", model_op="affinity_pair"),
+    # bit-for-bit: the model's operations evaluated in binary64 (`affinityR rnd64`) on the GEOS values the harness
+    # measured.  Not `determined`: the property does not pin the last bit, so a disagreement is a broken tie (the
+    # floating-point theorems no longer describe the code) and `search` looks for an input violating the property
+    "affinity_bits": Op("affinity_bits", _impl_bits, to_model=_to_model64, compare=_compare_bits, determined=False,
+                        nontrivial=_nontrivial, mode="exact", model_op="affinity64"),
     "shift": Op("shift", _impl_shift, to_model=_to_model, compare=_compare_shift, holds=_holds_shift,
                 nontrivial=_nontrivial, mode="tolerance", model_op="affinity_pair"),
 }
@@ -395,16 +443,35 @@ FINDING_MATCHERS = {"geos_order_ulp": _match_order_ulp, "geos_self_below_one_ulp
 # ---------------------------------------------------------------- tie 1: tables
 def _tables(ctx):
     import soundevent.evaluation.affinity as A
-    for pyname, lean in (("BUFFER_GEOMETRY_TYPES", "SE.Affinity.bufferTypes"), ("TIME_GEOMETRY_TYPES", "SE.Affinity.timeTypes")):
+    tabs = {}
+    for pyname in ("BUFFER_GEOMETRY_TYPES", "TIME_GEOMETRY_TYPES"):
         tbl = getattr(A, pyname, None)
-        if tbl is None or not all(isinstance(x, str) for x in tbl):
+        try:
+            ok = tbl is not None and all(isinstance(x, str) for x in tbl)
+        except TypeError:
+            ok = False
+        if not ok:
             ctx.pre_failed.append(pyname)
             ctx.fail("obligation", pyname, detail=f"table {pyname} is gone or is not a collection of type names",
                      extra={"op": "affinity_geos"})
             continue
-        items = ", ".join('"%s"' % x for x in sorted(tbl))
-        ctx.obligation(pyname, f"theorem tbl_{pyname} : ([{items}] : List String) = {lean} := by\n  se_close\n",
-                       {"op": "affinity_geos", "extracted": sorted(tbl)})
+        tabs[pyname] = sorted(set(tbl))
+    if "BUFFER_GEOMETRY_TYPES" in tabs:
+        # every one of the nine input types meets this table: it must be the model's list
+        items = ", ".join('"%s"' % x for x in tabs["BUFFER_GEOMETRY_TYPES"])
+        ctx.obligation("BUFFER_GEOMETRY_TYPES",
+                       f"theorem tbl_BUFFER_GEOMETRY_TYPES : ([{items}] : List String) = SE.Affinity.bufferTypes := by\n  se_close\n",
+                       {"op": "affinity_geos", "extracted": tabs["BUFFER_GEOMETRY_TYPES"]})
+    if "TIME_GEOMETRY_TYPES" in tabs:
+        # only the types of *prepared* geometries meet this table (a buffered type never does: it has become a
+        # TimeInterval or a (Multi)Polygon): the table must agree with the model's on those, nothing more
+        items = ", ".join('"%s"' % x for x in tabs["TIME_GEOMETRY_TYPES"])
+        ctx.obligation("TIME_GEOMETRY_TYPES",
+                       "theorem tbl_TIME_GEOMETRY_TYPES : ∀ tag ∈ ([\"TimeInterval\", \"Polygon\", \"MultiPolygon\", \"BoundingBox\", "
+                       "\"TimeStamp\", \"Point\", \"LineString\", \"MultiPoint\", \"MultiLineString\"] : List String),\n"
+                       "    SE.Affinity.bufferTypes.contains tag = true ∨\n"
+                       f"    ([{items}] : List String).contains tag = SE.Affinity.timeTypes.contains tag := by\n  decide\n",
+                       {"op": "affinity_closed", "extracted": tabs["TIME_GEOMETRY_TYPES"]})
 
 
 # ---------------------------------------------------------------- tie 1b: symbolic traces
@@ -447,15 +514,21 @@ def _symbolic_ties(ctx):
     shapes = {"x": _ShapeStub("x", a, inter), "y": _ShapeStub("y", b, inter)}
 
     def run_area():
-        saved = (A._prepare_geometry, A.geometry_to_shapely)
-        A._prepare_geometry = lambda g, *aa, **kw: g
+        # a Polygon is not buffered: the real `_prepare_geometry` hands the stand-ins on unchanged
+        saved = A.geometry_to_shapely
         A.geometry_to_shapely = lambda g: shapes[g.coordinates]
         try:
             return A.compute_affinity(_GeomStub("Polygon", "x"), _GeomStub("Polygon", "y"))
         finally:
-            A._prepare_geometry, A.geometry_to_shapely = saved
+            A.geometry_to_shapely = saved
     ctx.sym_tie("ext_iou", run_area, V, "Rat", "some (SE.Affinity.iouC a b i)",
                 tactic="unfold ext_iou SE.Affinity.iouC\n  se_close", meta={"op": "affinity_geos"})
+
+    # (b), (c) need the name `compute_affinity_in_time`; if the code no longer has it the marker-free traces of the
+    # whole function (`ext_full_*`, see _route_ties) take their place
+    if not callable(getattr(A, "compute_affinity_in_time", None)):
+        ctx.note("compute_affinity_in_time is gone: the time function is tied through the marker-free traces ext_full_*")
+        return
 
     # (b) the time branch on symbolic bounds
     BV = ["s1", "l1", "e1", "h1", "s2", "l2", "e2", "h2"]
@@ -550,16 +623,18 @@ def _rounded_ties(ctx):
     shapes = {"x": _ShapeStub("x", a, inter), "y": _ShapeStub("y", b, inter)}
 
     def run_area():
-        saved = (A._prepare_geometry, A.geometry_to_shapely)
-        A._prepare_geometry = lambda g, *aa, **kw: g
+        # a Polygon is not buffered: the real `_prepare_geometry` hands the stand-ins on unchanged
+        saved = A.geometry_to_shapely
         A.geometry_to_shapely = lambda g: shapes[g.coordinates]
         try:
             return A.compute_affinity(_GeomStub("Polygon", "x"), _GeomStub("Polygon", "y"))
         finally:
-            A._prepare_geometry, A.geometry_to_shapely = saved
+            A.geometry_to_shapely = saved
     _custom_tie(ctx, "ext_iou_r", lambda: R.formula_obligation(
         "ext_iou_r", run_area, ["a", "b", "i"], "SE.Affinity.iouCR rnd a b i", "SE.Affinity.iouCR"),
         {"op": "affinity_geos"})
+    if not callable(getattr(A, "compute_affinity_in_time", None)):
+        return
     BV = ["s1", "l1", "e1", "h1", "s2", "l2", "e2", "h2"]
     sy = {n: R.rvar(n) for n in BV}
 
@@ -576,6 +651,15 @@ def _rounded_ties(ctx):
         {"op": "affinity_closed"})
 
 
+def _buffer_ties(ctx):
+    """buffer_timestamp / buffer_interval / buffer_bounding_box_geometry through the public buffer_geometry"""
+    import soundevent.geometry.operations as O
+    from soundevent import data as real_data
+    for ty in ("TimeStamp", "TimeInterval", "BoundingBox"):
+        _custom_tie(ctx, f"ext_buffer_{ty}", lambda: c06_route.buffer_obligation(f"ext_buffer_{ty}", O, real_data, ty),
+                    {"op": "affinity_closed"})
+
+
 def _route_ties(ctx):
     """the whole of compute_affinity for every ordered type pair, every `Geos`, all coordinates and buffers, in
     a rounding arithmetic: which branch, which sides are buffered with which buffers, which extents / areas"""
@@ -583,13 +667,20 @@ def _route_ties(ctx):
     import soundevent.geometry.operations as O
     from soundevent import data as real_data
     R = c06_route
+    # `compute_affinity_in_time` is tied on its own (ext_time_iou, ext_time_iou_r); a marker in its place keeps the
+    # number of paths small.  Without that name (or in the thorough tier) the whole function is traced instead.
+    have_marker = callable(getattr(A, "compute_affinity_in_time", None))
     for t1 in R.TYPES:
         for t2 in R.TYPES:
-            name = f"ext_route_{t1}_{t2}"
-            time_only = t1 in ("TimeStamp", "TimeInterval") or t2 in ("TimeStamp", "TimeInterval")
-            _custom_tie(ctx, name, lambda: R.route_obligation(name, R.tracer(A, O, real_data, t1, t2), t1, t2),
-                        {"op": "affinity_closed" if time_only and "Point" not in t1 + t2 and "Line" not in t1 + t2
-                         else "affinity_geos"})
+            geos = any(t in ("Point", "LineString", "MultiPoint", "MultiLineString") for t in (t1, t2)) \
+                or not any(t in ("TimeStamp", "TimeInterval") for t in (t1, t2))
+            meta = {"op": "affinity_geos" if geos else "affinity_closed"}
+            if have_marker:
+                _custom_tie(ctx, f"ext_route_{t1}_{t2}", lambda: R.route_obligation(
+                    f"ext_route_{t1}_{t2}", R.tracer(A, O, real_data, t1, t2), t1, t2), meta)
+            if ctx.thorough() or not have_marker:
+                _custom_tie(ctx, f"ext_full_{t1}_{t2}", lambda: R.full_obligation(
+                    f"ext_full_{t1}_{t2}", R.tracer(A, O, real_data, t1, t2, marker=False), t1, t2), meta)
 
 
 # ---------------------------------------------------------------- generators
@@ -734,6 +825,35 @@ def _exhaustive_closed(thorough):
             yield {"g1": b, "g2": a, "tb": "1/4", "fb": "1/2", "mode": "grid"}
 
 
+def _tiny_overlap_cases():
+    """extents that overlap, or miss each other, by 2^-k (k up to 45): dyadic, so still exact in binary64"""
+    for k in (10, 20, 30, 36, 45):
+        eps = Fraction(1, 2 ** k)
+        for d in (eps, -eps, Fraction(0)):
+            a, b = _interval(1, 2), _interval(2 - d, 3)
+            yield {"g1": a, "g2": b, "tb": "0", "fb": "0", "mode": "grid"}
+            yield {"g1": _box(1, 1, 2, 2), "g2": b, "tb": "0", "fb": "0", "mode": "grid"}
+            yield {"g1": _box(1, 1, 2, 2), "g2": _box(2 - d, 1, 3, 2), "tb": "0", "fb": "0", "mode": "grid"}
+            yield {"g1": _stamp(1), "g2": _interval(Fraction(5, 4) - d, 2), "tb": "1/4", "fb": "1", "mode": "grid"}
+            yield {"g1": _stamp(1), "g2": _stamp(Fraction(3, 2) - d), "tb": "1/4", "fb": "1", "mode": "grid"}
+            yield {"g1": _interval(1, 1 + eps), "g2": _interval(1, 1 + eps), "tb": "0", "fb": "0", "mode": "grid"}
+
+
+def _full_band_cases(rng, reps):
+    """bounding boxes that touch frequency 0 and / or MAX_FREQUENCY against every type"""
+    M = gen_geom.MAXF
+    for _ in range(reps):
+        s = Fraction(rng.randint(0, 8), 4)
+        w = Fraction(rng.randint(1, 8), 4)
+        for lo, hi in ((0, M), (0, 2), (M - 2, M)):
+            bx = _box(s, lo, s + w, hi)
+            for ty in gen_geom.TYPES:
+                g = _valid(rng, ty, tmax=4, fmax=4, k=2)
+                tb, fb = _bufs(rng, bx, g, "grid")
+                yield {"g1": bx, "g2": g, "tb": tb, "fb": fb, "mode": "grid"}
+        yield {"g1": _box(s, 0, s + w, M), "g2": _box(s, 0, s + w, M), "tb": "1/4", "fb": "1/2", "mode": "grid"}
+
+
 def _boundary_geos(rng, reps):
     """touching, nested and identical-but-differently-typed shapes through GEOS"""
     for _ in range(reps):
@@ -769,6 +889,8 @@ def _shift_cases(rng, reps):
 # ---------------------------------------------------------------- run / search
 def _correspondence(ctx):
     _run_pairs(ctx, list(_exhaustive_closed(ctx.thorough())))
+    _run_pairs(ctx, list(_tiny_overlap_cases()))
+    _run_pairs(ctx, list(_full_band_cases(ctx.rng, ctx.budget(4, 30))))
     ctx.exhaustive["closed forms"] = ("all interval x interval, time stamp x interval (4 buffers), time stamp x time stamp, "
                                       "box x box and box x interval placements on a half-second / 1 Hz grid")
     _run_pairs(ctx, list(_pair_cases(ctx.rng, ctx.budget(16, 120), "grid")))
@@ -777,8 +899,29 @@ def _correspondence(ctx):
 
 
 def _free_mode(ctx):
-    _run_pairs(ctx, list(_pair_cases(ctx.rng, ctx.budget(10, 80), "free")))
-    _run_pairs(ctx, list(_self_cases(ctx.rng, ctx.budget(80, 800), "free")))
+    pairs = list(_pair_cases(ctx.rng, ctx.budget(10, 80), "free"))
+    selfs = list(_self_cases(ctx.rng, ctx.budget(80, 800), "free"))
+    _run_pairs(ctx, pairs)
+    _run_pairs(ctx, selfs)
+    # the same observations against the binary64 evaluation of the model, bit for bit
+    ctx.run_cases(OPS["affinity_bits"], pairs + selfs[:ctx.budget(240, 2400)] + list(_tiny_overlap_cases()))
+
+
+def _rnd64_contract(ctx):
+    """the driver's `rnd64` is binary64 round-to-nearest-even: compared with Python's correctly rounded
+    `float(Fraction)` on random rationals, sums / differences / quotients of floats and exact ties"""
+    rng = ctx.rng
+    xs = []
+    for _ in range(ctx.budget(150, 1500)):
+        a, b = rng.uniform(0, 10), rng.uniform(1e-3, 5000)
+        xs += [Fraction(a) + Fraction(b), Fraction(a) - Fraction(b), Fraction(a) / Fraction(b),
+               Fraction(rng.randint(-10 ** 6, 10 ** 6), rng.randint(1, 10 ** 6))]
+    xs += [Fraction(2 ** 53 + 1, 2 ** 60), Fraction(2 ** 53 + 3, 2 ** 60), Fraction(-(2 ** 53 + 1), 2 ** 10), Fraction(1),
+           Fraction(0), Fraction(1, 3), Fraction(5_000_000)]
+    outs = ctx.model_many("rnd64", [{"x": rat(x)} for x in xs])
+    for x, mo in zip(xs, outs):
+        ctx.contract("rnd64 = binary64 round-to-nearest-even (against float(Fraction))",
+                     frac(mo["val"]) == Fraction(float(x)), None, {"x": rat(x), "rnd64": mo["val"]})
 
 
 def _shifts(ctx):
@@ -811,14 +954,17 @@ def run(ctx):
     global _CTX
     _CTX = ctx
     _CACHE.clear()
+    _IMPL_SEEN.clear()
     ctx.stage("tables", _tables, ctx)
     ctx.stage("symbolic-ties", _symbolic_ties, ctx)
     ctx.stage("symbolic-ties (rounding arithmetic)", _rounded_ties, ctx)
+    ctx.stage("symbolic-ties (closed-form buffers)", _buffer_ties, ctx)
     ctx.stage("symbolic-ties (routes of all 81 type pairs)", _route_ties, ctx)
     ctx.stage("discharge", ctx.discharge, ["SoundeventModel.Affinity", "SoundeventModel.Ops.C06", "SoundeventModel.Tactics"])
     ctx.stage("corpus", _corpus, ctx)
     ctx.stage("bounds contract", _bounds_contract, ctx)
     ctx.stage("correspondence on grids", _correspondence, ctx)
+    ctx.stage("rnd64 contract", _rnd64_contract, ctx)
     ctx.stage("free mode", _free_mode, ctx)
     ctx.stage("shift", _shifts, ctx)
 
@@ -826,6 +972,8 @@ def run(ctx):
 def search(ctx, failures):
     """a tie, a contract or the correspondence broke: every type pair again, wider, and let the monitor judge"""
     ctx.stage("search: closed forms", lambda: _run_pairs(ctx, list(_exhaustive_closed(True))))
+    ctx.stage("search: tiny overlaps", lambda: _run_pairs(ctx, list(_tiny_overlap_cases())))
+    ctx.stage("search: full-band boxes", lambda: _run_pairs(ctx, list(_full_band_cases(ctx.rng, 6))))
     ctx.stage("search: grid pairs", lambda: _run_pairs(ctx, list(_pair_cases(ctx.rng, 10, "grid"))))
     ctx.stage("search: self pairs", lambda: _run_pairs(ctx, list(_self_cases(ctx.rng, 40, "grid"))))
     ctx.stage("search: free pairs", lambda: _run_pairs(ctx, list(_pair_cases(ctx.rng, 4, "free"))))
